@@ -79,7 +79,9 @@ def crtf_meta():
         'frame': st.sampled_from(['TOPO', 'LSRK', 'BARY']),
         'veltype': st.sampled_from(['RADIO', 'OPTICAL']),
         'restfreq': st.sampled_from(['1.42GHz', '115.27GHz']),
-        'range': st.sampled_from([['1GHz', '2GHz'], ['100km/s', '300km/s']]),
+        'range': st.sampled_from([['1GHz', '2GHz'], ['100km/s', '300km/s'],
+                                  # a narrow band: all the digits matter
+                                  ['1.4204057517GHz', '1.4204067517GHz']]),
         'corr': st.sampled_from([['I'], ['I', 'Q'], ['XX', 'YY']]),
     })
 
